@@ -1,5 +1,5 @@
 #!/bin/bash
-# usage: work/round.sh <dir holding the seeds> id...   verify + run own-property quick check, 3 at a time
+# usage: tools/round.sh <dir holding the seeds> id...   verify + run own-property quick check, 3 at a time
 D=$1; shift
 cd /verif; mkdir -p work/seed_res
 printf '%s\n' "$@" | xargs -P 3 -I{} bash -c 'id={}; pid=${id%%-*}; { ./seeded/verify_seed.sh '$D'/$id; ./seedtest2.sh '$D'/$id/patch.diff $pid quick; } > work/seed_res/$id.txt 2>&1'
